@@ -653,7 +653,7 @@ CONTRACTS = {
                     ('dtor_walk.outer.this_b', 'g_b_started ==> (g_b_this_ok && g_b_depth == g_depth0 + 1)'),
                 ],
                 'decreases': 'cur'},
-            1: {'assigns': 'bl_i1, ev_m_hasReturn, g_pclock, g_exec_n, g_exec_first_t, g_exec_first_stmt, g_a_started, g_b_started, g_b_started_when_a, g_a_this_ok, g_b_this_ok, g_a_depth, g_b_depth',
+            1: {'assigns': 'g_after_return, bl_i1, ev_m_hasReturn, g_pclock, g_exec_n, g_exec_first_t, g_exec_first_stmt, g_a_started, g_b_started, g_b_started_when_a, g_a_this_ok, g_b_this_ok, g_a_depth, g_b_depth',
                 'before': 'g_ns = BODY_NSTMTS(DECL_BODY(g_cls[cur].destructorDecl));', 'ghost_in_bounded': True,
                 'invariants': [
                     ('dtor_walk.inner.bounds', 'bl_i1 <= g_ns'),
@@ -709,7 +709,7 @@ CONTRACTS['ctor_phases'] = {
         1: {'assigns': 'bl_i1, superCtorDecl, zeroArgMatches',
             'before': 'g_cb_n = CLS_NCTORS(g_cls[cls].base);',
             'invariants': [('ctor_phases.implicit.bounds', 'bl_i1 <= g_cb_n && zeroArgMatches >= 0 && (size_t)zeroArgMatches <= bl_i1')], 'decreases': 'g_cb_n - bl_i1'},
-        2: {'assigns': 'i, ev_m_hasReturn, g_pclock, g_exec_n, g_exec_first_t, g_exec_first_stmt, g_a_started, g_b_started, g_b_started_when_a, g_a_this_ok, g_b_this_ok, g_a_depth, g_b_depth',
+        2: {'assigns': 'g_after_return, i, ev_m_hasReturn, g_pclock, g_exec_n, g_exec_first_t, g_exec_first_stmt, g_a_started, g_b_started, g_b_started_when_a, g_a_this_ok, g_b_this_ok, g_a_depth, g_b_depth',
             'before': 'g_cb_n = BODY_NSTMTS(DECL_BODY(ctor));', 'ghost_in_bounded': True,
             'invariants': [('ctor_phases.body.bounds', 'i >= startIdx && (i <= g_cb_n || i == startIdx) && g_pclock >= 0 && g_pclock <= 1000000 && g_exec_n >= 0'),
                            ('ctor_phases.body.first_statement', '(g_exec_n == 0) == (i == startIdx)'),
